@@ -442,7 +442,28 @@ def check_C13(tier, replay=None):
     return rc
 
 
-CHECKS = {"C13": check_C13, "C12": check_C12, "C09": check_C09, "C10": check_C10, "C08": check_C08, "C11": check_C11, "C06": check_C06, "C15": check_C15, "C02": check_C02}
+# ------------------------------------------------------------------------- C17
+
+def check_C17(tier, replay=None):
+    R = Result("C17", tier)
+    os.environ["ZV_ZEEP_BIN"] = z.build_zeep_bin()
+    os.environ["ZV_SCRATCH"] = os.path.join(z.BUILD, "scratch")
+    std_flow(R, "MC_C17", [("MC_C17", {})], "Trace_C17", {}, ("D01", "D02"),
+             ["DesignOK", "OutcomeAgrees", "Emit"], properties=["Terminates"], per_case_timeout=120)
+    runs = sum(1 for t in glob_traces("MC_C17") for line in open(t) if '"cli_run"' in line)
+    R.extra["binary_runs"] = runs
+    R.extra["exhaustive"] = True
+    return finish(R, "model_checking",
+                  "every scenario of spec/Cli.tla (path spelling abs/rel/./rel/bare x output default/explicit same dir/explicit other dir x pre-existing output absent/shorter/longer x failing stage none/missing input/malformed XML/unresolved import/unsupported binding/unreadable imported file/missing output directory) is one TLC initial state; each is executed with the real zeep binary from three working directories (input directory, its parent, an unrelated one) in a scratch tree; TLC judges exit status, output-file state (against the bytes the library produces in-process for the same files) and stray files",
+                  ["scratch-directory driver (harness/src/cli.rs)", "TLC", "the process runs as root: unreadable means not valid UTF-8, not permission bits"])
+
+
+def glob_traces(name):
+    import glob
+    return glob.glob(os.path.join(z.BUILD, "traces", name, "trace_*.ndjson"))
+
+
+CHECKS = {"C17": check_C17, "C13": check_C13, "C12": check_C12, "C09": check_C09, "C10": check_C10, "C08": check_C08, "C11": check_C11, "C06": check_C06, "C15": check_C15, "C02": check_C02}
 
 
 def main(argv):
